@@ -447,15 +447,28 @@ def c03_single(m, run):
                         t1.add((p, tuple(ranks), i, u), None if first is None else (first[0], first[1]))
                         if p <= 2:
                             for order in range(0, p + 1):
-                                def post2(sk, out, inside=inside, order=order, special=special):
+                                end_zero = []
+
+                                def post2(sk, out, inside=inside, order=order, special=special, at_end=(u == ranks[-1]), i=i, n=n, p=p):
                                     if len(out) != order + 1:
                                         raise Violation('OT4', 'derivative list has %d entries for order %d' % (len(out), order))
+                                    if at_end:
+                                        # at the last knot the k-th derivative of N_i is non-zero exactly for k >= n - 1 - i (k <= degree): the
+                                        # all-functions routines evaluate there in the last non-empty span, the single-function routine must agree
+                                        must = [k for k in range(0, order + 1) if n - 1 - i <= k <= p]
+                                        # forks over-approximate the zero tests: the clause fails only if the literal 0.0 comes back on EVERY path
+                                        end_zero.append({k for k in must if isinstance(out[k], float) and out[k] == 0.0})
                                     if inside or special:
                                         bad = [k for k, c in enumerate(out) if isinstance(c, Tok) and c.kind == 'PH0']
                                         if bad:
                                             raise Violation('OT4', 'derivatives %s are returned as the untouched initial fill although the parameter is inside the support' % bad)
                                 npaths, first, trunc = explore_case(m, 'helpers.basis_function_ders_one', lambda: [p, [Ord(r) for r in ranks], i, Ord(u), order], post2, 1500)
                                 paths += npaths
+                                if first is None and end_zero:
+                                    always = set.intersection(*end_zero)
+                                    if always:
+                                        first = ('OT4', 'at the end of the domain the derivatives %s of function %d are the literal 0.0 on every path (the local-support test '
+                                                        'treats the last knot as outside); basis_function_ders gives non-zero values there' % (sorted(always), i))
                                 t2.add((p, tuple(ranks), i, u, order), None if first is None else (first[0], first[1]))
     run.extra['ot4_paths'] = paths
     finish(t1, 'geomdl/helpers.py')
